@@ -68,13 +68,19 @@ class TreeBuilder:
         env = {}
         for k in range(1, b['argc'] + 1):
             env[k] = args[k - 1] if args is not None else ('in', 'arg%d' % k)
-        return self._block(b, g, 0, env, [], depth)
+        res = self._run(b, g, 0, env, [], None, depth)
+        if res[0] != 'ret': raise TooComplex('no return reached in %s' % name)
+        return res[1], res[2]
 
-    def _block(self, b, g, bb, env, stores, depth):
+    def _run(self, b, g, bb, env, stores, stop, depth):
+        """structured if-conversion: evaluate from bb until `stop` (the immediate post-dominator of the enclosing branch) or a return.
+        returns ('ret', value, stores) or ('at', env, stores)"""
         blocks = b['blocks']
         while True:
+            if bb == stop:
+                return ('at', env, stores)
             self.steps += 1
-            if self.steps > 200000: raise TooComplex('step budget exceeded in %s (a loop that does not unroll?)' % b['name'])
+            if self.steps > 400000: raise TooComplex('step budget exceeded in %s (a loop that does not unroll?)' % b['name'])
             blk = blocks[bb]
             for s in blk['stmts']:
                 if s['s'] == 'assign':
@@ -83,42 +89,79 @@ class TreeBuilder:
             t = blk['term']; k = t['t']
             if k == 'return':
                 self.paths += 1
-                if self.paths > self.max_paths: raise TooComplex('more than %d paths in %s' % (self.max_paths, b['name']))
-                return self._export(env, env.get(0, ('c', ())), 0), [(self._export(env, t_, 0), self._export(env, v_, 0)) for t_, v_ in stores]
+                return ('ret', self._export(env, env.get(0, ('c', ())), 0), [(self._export(env, t_, 0), self._export(env, v_, 0)) for t_, v_ in stores])
             if k in ('goto', 'drop', 'assert'):
                 bb = t['to']; continue
             if k == 'unreachable':
-                return ('unreachable',), list(stores)
-            if k == 'switch':
-                succ = g.succ[bb]
-                if len(succ) == 1:
-                    bb = succ[0]; continue
-                cond = self._operand(b, env, t['on'])
-                if cond[0] == 'c' and isinstance(cond[1], (int, bool)):
-                    tgt = t['otherwise']
-                    for val, to in t['arms']:
-                        if int(val) == int(cond[1]): tgt = to
-                    bb = tgt; continue
-                # build ite chain over the arms
-                arms = [(int(v), to) for v, to in t['arms'] if to in succ]
-                result = None
-                branches = []
-                for v, to in arms:
-                    r, st = self._block(b, g, to, dict(env), list(stores), depth)
-                    branches.append((v, r, st))
-                if t['otherwise'] in succ:
-                    r, st = self._block(b, g, t['otherwise'], dict(env), list(stores), depth)
-                    other = (r, st)
-                else:
-                    other = None
-                return self._merge(cond, branches, other)
+                return ('ret', ('unreachable',), list(stores))
             if k == 'call':
                 val = self._call(b, env, stores, t, depth)
                 self._write(b, env, stores, t['dest'], val)
                 if t['to'] is None:
-                    return ('diverge', self.F.callee_name(t)), list(stores)
+                    return ('ret', ('diverge', self.F.callee_name(t)), list(stores))
                 bb = t['to']; continue
-            raise TooComplex('terminator %s' % k)
+            if k != 'switch':
+                raise TooComplex('terminator %s' % k)
+            succ = g.succ[bb]
+            if len(succ) == 1:
+                bb = succ[0]; continue
+            cond = self._operand(b, env, t['on'])
+            if cond[0] == 'c' and isinstance(cond[1], (int, bool)):
+                tgt = t['otherwise']
+                for val, to in t['arms']:
+                    if int(val) == int(cond[1]): tgt = to
+                bb = tgt; continue
+            J = g.ipdom().get(bb, -1)
+            if J == -1: J = None
+            arms = []          # (condition or None for otherwise, target)
+            seen_t = set()
+            for v, to in t['arms']:
+                if to in succ: arms.append((('op', 'Eq', cond, ('c', int(v))), to))
+            if t['otherwise'] in succ: arms.append((None, t['otherwise']))
+            else:
+                # exhaustive switch: the last arm plays the role of `otherwise`
+                c_last, to_last = arms[-1]; arms[-1] = (None, to_last)
+            results = []
+            for c, to in arms:
+                self.paths += 0
+                r = self._run(b, g, to, dict(env), list(stores), J, depth)
+                results.append((c, r))
+            self.paths += len(arms) - 1
+            if self.paths > self.max_paths: raise TooComplex('more than %d paths in %s' % (self.max_paths, b['name']))
+            ats = [(c, r) for c, r in results if r[0] == 'at']
+            tail = None
+            if ats:
+                # merge the environments that reach the join
+                menv, mst = ats[-1][1][1], ats[-1][1][2]
+                for c, r in reversed(ats[:-1]):
+                    cc = c if c is not None else None
+                    if cc is None:
+                        # `otherwise` is not last among the joining arms: express the others relative to it
+                        cc = ('un', 'Not', _disj([x for x, _ in results if x is not None]))
+                    menv = merge_env(cc, r[1], menv); mst = merge_stores(cc, r[2], mst)
+                if ats[-1][0] is not None and any(c is None for c, r in ats[:-1]):
+                    pass
+                if J is None:
+                    raise TooComplex('join without a post-dominator in %s' % b['name'])
+                tail = self._run(b, g, J, menv, mst, stop, depth)
+            # arms that returned before the join
+            rets = [(c, r) for c, r in results if r[0] == 'ret']
+            if tail is None:
+                # all arms returned
+                cur = rets[-1][1]
+                val, st = cur[1], cur[2]
+                for c, r in reversed(rets[:-1]):
+                    cc = c if c is not None else ('un', 'Not', _disj([x for x, _ in results if x is not None]))
+                    val = ite(cc, r[1], val); st = merge_stores(cc, r[2], st)
+                return ('ret', val, st)
+            if tail[0] == 'at':
+                if rets: raise TooComplex('early return inside a nested region of %s' % b['name'])
+                return tail
+            val, st = tail[1], tail[2]
+            for c, r in reversed(rets):
+                cc = c if c is not None else ('un', 'Not', _disj([x for x, _ in results if x is not None]))
+                val = ite(cc, r[1], val); st = merge_stores(cc, r[2], st)
+            return ('ret', val, st)
 
     def _export(self, env, v, d):
         """a value leaving the function must not refer to the function's own locals: replace references to locals by references to their values"""
@@ -174,7 +217,12 @@ class TreeBuilder:
         for e in p['proj']:
             v = project(v, e, lambda l: env.get(l, ('unk', 'idx')))
         if resolve and v[0] == 'local' and p['proj']: v = self._resolve_local(env, v)
+        if resolve and v[0] == 'cell': v = self._cell_value(v)
         return v
+
+    def _cell_value(self, c):
+        cv = getattr(self, 'cellvals', {})
+        return cv.get(c[1], c[2])
 
     def _resolve_local(self, env, v):
         """value currently stored at ('local', l, path)"""
@@ -199,6 +247,11 @@ class TreeBuilder:
             if tgt[0] == 'local':
                 # store through a reference to a local: update the local
                 self._update_local(env, tgt, val)
+            elif tgt[0] == 'cell':
+                if not hasattr(self, 'cellvals'): self.cellvals = {}
+                self.cellvals[tgt[1]] = val
+                stores[:] = [(t_, v_) for (t_, v_) in stores if not (t_[0] == 'cell' and t_[1] == tgt[1])]
+                stores.append((('cell', tgt[1]), val))
             else:
                 stores.append((tgt, val))
             return
@@ -252,15 +305,18 @@ class TreeBuilder:
         if callee and depth < self.max_depth and not self.opaque(callee):
             try:
                 sub = TreeBuilder(F, self.max_paths, self.max_depth, self.opaque)
-                sub.paths = 0
-                rargs = [self._deref_arg(env, a) for a in args]
+                sub.paths = 0; sub.steps = self.steps
+                rargs = [self._to_cells(env, a) for a in args]
                 r, st = sub.function(callee, rargs, depth + 1)
-                self.paths += sub.paths
+                self.paths += sub.paths; self.steps = sub.steps
                 for (tg, v) in st:
-                    # stores through references given by the caller
-                    if tg[0] == 'local': self._update_local(env, tg, v)
-                    else: stores.append((tg, v))
-                return r
+                    if tg[0] == 'cell' and tg[1][0] == id(self):
+                        loc = ('local', tg[1][1], tg[1][2])
+                        cur = self._resolve_local(env, loc)
+                        self._update_local(env, loc, self._subst_old(v, tg, cur))
+                    else:
+                        stores.append((tg, v))
+                return self._from_cells(env, r)
             except TooComplex:
                 return ('call', name) + tuple(args)
         if name.endswith('IntoIterator>::into_iter') and args and args[0][0] == 'agg' and args[0][1].startswith('Range'):
@@ -289,10 +345,32 @@ class TreeBuilder:
     def _deref_arg(self, env, a):
         return a
 
+    def _to_cells(self, env, a):
+        """references to this frame's locals become cells (location id + snapshot of the value) when handed to an inlined callee"""
+        if not isinstance(a, tuple): return a
+        if a and a[0] == 'ref' and isinstance(a[1], tuple) and a[1] and a[1][0] == 'local':
+            loc = a[1]
+            return ('ref', ('cell', (id(self), loc[1], loc[2]), self._to_cells(env, self._resolve_local(env, loc))))
+        return tuple(self._to_cells(env, x) if isinstance(x, tuple) else x for x in a)
+
+    def _from_cells(self, env, v):
+        """a value returned by an inlined callee: cells of this frame become references to the locals again"""
+        if not isinstance(v, tuple): return v
+        if v and v[0] == 'cell' and v[1][0] == id(self):
+            return ('local', v[1][1], v[1][2])
+        return tuple(self._from_cells(env, x) if isinstance(x, tuple) else x for x in v)
+
+    def _subst_old(self, v, tg, cur):
+        if not isinstance(v, tuple): return v
+        if v and v[0] == 'old' and v[1] == tg: return cur
+        return tuple(self._subst_old(x, tg, cur) if isinstance(x, tuple) else x for x in v)
+
     def _deref_val(self, env, a):
         while a[0] == 'cast' and (a[1].startswith('&') or a[1].startswith('*')): a = a[2]
         if a[0] == 'ref' and a[1][0] == 'local':
             return self._resolve_local(env, a[1])
+        if a[0] == 'ref' and a[1][0] == 'cell':
+            return self._cell_value(a[1])
         if a[0] == 'ref':
             inner = a[1]
             if inner[0] == 'local':
@@ -320,6 +398,23 @@ def ite(c, a, b):
     return ('ite', c, a, b)
 
 
+def _disj(cs):
+    cur = cs[0]
+    for c in cs[1:]: cur = ('op', 'BitOr', cur, c)
+    return cur
+
+
+def merge_env(c, ea, eb):
+    """environment after a join: ite(c, value on the c-branch, value on the other)"""
+    out = {}
+    for k in set(ea) | set(eb):
+        va = ea.get(k); vb = eb.get(k)
+        if va is None or vb is None:
+            continue          # defined on one side only: dead after the join (MIR temporaries)
+        out[k] = va if va == vb else ite(c, va, vb)
+    return out
+
+
 def merge_stores(c, sa, sb):
     """stores of the two branches -> conditional stores"""
     out = []
@@ -339,6 +434,8 @@ def project(v, e, getlocal, for_store=False):
     if k == 'deref':
         if v[0] == 'ref': return v[1]
         return v
+    if k == 'field' and v[0] == 'cell':
+        return ('cell', (v[1][0], v[1][1], v[1][2] + (e['i'],)), project(v[2], e, getlocal) if len(v) > 2 else ('unk', 'cell'))
     if k == 'field':
         i = e['i']
         if v[0] == 'agg':
